@@ -343,6 +343,7 @@ IDX = {"stackTable": [("prefix", "stackTable"), ("frame", "frameTable")],
        "nativeAllocations": [("stack", "stackTable")],
        "markers": [("name", "@strings"), ("category", "@categories")]}
 BAD = 999999999
+_SANS_F03A = [False]          # True while a case is encoded for verdict_sans_f03a: the range of nativeAllocations.stack is then not part of well-formedness
 
 
 def _kinds_by_type(ops):
@@ -375,6 +376,8 @@ def _thread_json(th, nlibs, ncats, kb):
         cols = [len(v) for k, v in tb.items() if isinstance(v, list)]
         idx = []
         for col, target in idxcols:
+            if name == "nativeAllocations" and _SANS_F03A[0]:
+                continue
             if col in tb:
                 idx.append("(%s, %d%%nat)" % (K.coq_list([_opt(v) if not isinstance(v, bool) else "None" for v in tb[col]]), tlen(target)))
         if name == "markers":
@@ -838,10 +841,12 @@ def evaluate(cases):
                          "initialVisibleThreads": prof["meta"].get("initialVisibleThreads"), "initialSelectedThreads": prof["meta"].get("initialSelectedThreads"),
                          "counters": [(x["pid"], x["mainThreadIndex"]) for x in prof.get("counters", [])]}
         terms.append(_coq_case(_valid(c["items"]), prof))
+        c["_prof"] = prof
         idx.append(i)
+    HDR = "From SV Require Import Model.ProfileTables Model.FrameTables Model.MarkerTable Model.Categories Tie.C03.\nOpen Scope N_scope."
     shards = [K.case_defs("c03case", ch) for ch in K.chunked(terms, K.NCPU)]
     try:
-        res = K.coq_eval(PROP, "From SV Require Import Model.ProfileTables Model.FrameTables Model.MarkerTable Model.Categories Tie.C03.\nOpen Scope N_scope.", shards)
+        res = K.coq_eval(PROP, HDR, shards)
     except RuntimeError as ex:
         raise K.TieBroken(str(ex))
     flat = [v for r in res for v in r]
@@ -849,17 +854,44 @@ def evaluate(cases):
         raise K.TieBroken("verdict count mismatch %d vs %d" % (len(flat), len(terms)))
     for i, v in zip(idx, flat):
         verdicts[i] = v
+    # failing histories of the class of known finding F-C03a: does anything ELSE of the property fail on them?  (the verdict with the allocation
+    # clause restricted to samples added for first threads)
+    sub = [i for i in idx if verdicts[i] % 10 == 2 and _f03a_shape(cases[i])]
+    if sub:
+        _SANS_F03A[0] = True
+        try:
+            sub = [(i, _coq_case(_valid(cases[i]["items"]), cases[i]["_prof"])) for i in sub]
+        finally:
+            _SANS_F03A[0] = False
+        try:
+            res = K.coq_eval(PROP, HDR, [K.case_defs("c03case", [t for _, t in ch], fn="verdict_sans_f03a") for ch in K.chunked(sub, K.NCPU)])
+        except RuntimeError as ex:
+            raise K.TieBroken(str(ex))
+        for (i, _), v in zip(sub, [v for r in res for v in r]):
+            cases[i]["_only_f03a"] = (v % 10 != 2)
+    for c in cases:
+        c.pop("_prof", None)
     return verdicts
 
 
-def known(case):
-    """F-C03a: an allocation sample with a stack, added for a thread that is not the first thread of its process"""
+def _f03a_shape(case):
     first, threads = {}, []
     for o in _valid(case["items"]):
         if o[0] == "T":
             first.setdefault(o[1], len(threads))
             threads.append(o[1])
         elif o[0] == "B" and len(o) > 5 and first.get(threads[o[1]]) != o[1]:
+            return True
+    return False
+
+
+def known(case):
+    """F-C03a: an allocation sample with a stack, added for a thread that is not the first thread of its process - and nothing else of the property
+    fails on that history (the verdict with the allocation clause restricted to first threads' samples is not a failure)"""
+    if _f03a_shape(case):
+        if "_only_f03a" not in case:
+            evaluate([case])
+        if case.get("_only_f03a"):
             return K.known_line(PROP, "F-C03a")
     return None
 
